@@ -552,7 +552,21 @@ fn cmd_run(args: &[String]) {
 
     // quiet panic hook that remembers the panic location for the report
     std::panic::set_hook(Box::new(|info| {
-        let loc = info.location().map(|l| format!("{}:{}", l.file(), l.line())).unwrap_or_default();
+        let mut loc = info.location().map(|l| format!("{}:{}", l.file(), l.line())).unwrap_or_default();
+        // a panic raised inside a dependency (itertools, salsa, ...): name the innermost frame of the
+        // repository's own crates (symbol only; limited to the first panics of the process - it is slow)
+        static BT_BUDGET: AtomicUsize = AtomicUsize::new(300);
+        if !loc.contains("/crates/cairo-lang-")
+            && BT_BUDGET.fetch_update(Ordering::SeqCst, Ordering::SeqCst, |x| x.checked_sub(1)).is_ok()
+        {
+            let bt = std::backtrace::Backtrace::force_capture().to_string();
+            if let Some(frame) = bt.lines().map(|l| l.trim()).find(|l| {
+                l.contains("cairo_lang_") && !l.contains("cairo_lang_utils") && !l.contains("parse_trace")
+            }) {
+                let sym = frame.split_once(": ").map(|x| x.1).unwrap_or(frame);
+                loc = format!("{loc} [in {sym}]");
+            }
+        }
         LAST_PANIC_LOC.with(|l| *l.borrow_mut() = Some(loc));
     }));
 
@@ -583,7 +597,7 @@ fn cmd_run(args: &[String]) {
     let stats = Arc::new(Stats::default());
     let results = Arc::new(Mutex::new(Vec::<Value>::new()));
     // abstract trace -> (count, first id, events)
-    let traces = Arc::new(Mutex::new(HashMap::<String, (usize, u64, usize)>::new()));
+    let traces = Arc::new(Mutex::new(HashMap::<(u64, u64), (usize, u64, usize)>::new()));
     let trace_store = Arc::new(Mutex::new(Vec::<(u64, Vec<Value>)>::new()));
     // per-thread in-flight marker: (input index + 1, start millis since t0)
     let t0 = Instant::now();
@@ -703,7 +717,16 @@ fn cmd_run(args: &[String]) {
                     // trace (deduplicated on the abstract content)
                     if trace_max > 0 && !o.lex.is_empty() && o.lex.len() <= trace_max {
                         let ev = render_trace(inp.text.len(), &o);
-                        let key = serde_json::to_string(&ev).unwrap();
+                        // 128-bit digest of the abstract content (two independent 64-bit hashes)
+                        let key = {
+                            use std::hash::{Hash, Hasher};
+                            let text = serde_json::to_string(&ev).unwrap();
+                            let mut h1 = std::collections::hash_map::DefaultHasher::new();
+                            text.hash(&mut h1);
+                            let mut h2 = std::collections::hash_map::DefaultHasher::new();
+                            (0x9E37_79B9_7F4A_7C15u64, &text, text.len()).hash(&mut h2);
+                            (h1.finish(), h2.finish())
+                        };
                         let mut m = traces.lock().unwrap();
                         match m.get_mut(&key) {
                             Some(e) => e.0 += 1,
